@@ -85,7 +85,7 @@ class Monitor:
             self.expr(st.r, False, None)
             self.target(st.l)
         elif isinstance(st, If):
-            self.expr(st.cond, True, "mask")
+            self.cond(st.cond)
             self.stmt(st.t)
             self.stmt(st.f)
         elif isinstance(st, Case):
@@ -145,13 +145,7 @@ class Monitor:
                 if op == "~":
                     if observed and how == "exact" and not ts[0][1]:
                         self._add(e, lambda v: False, "~ of an unsigned value in a self-determined position (negative in the simulator)")
-                    if observed and how == "mask":
-                        # the simulator masks ~o to Migen's width of o, Verilog inverts o at ITS self-determined width
-                        if vw(o) != ts[0][0]:
-                            self._add(e, lambda v: False, "~ of an expression whose Verilog width differs from Migen's, in a masked position")
-                        self.expr(o, True, "exact")
-                    else:
-                        self.expr(o, observed, how)
+                    self.expr(o, observed, how)
                 elif op == "-":
                     if ts[0][1]:
                         if observed:
@@ -165,7 +159,7 @@ class Monitor:
                 return
             if op == "m":
                 c, a, b = e.operands
-                self.expr(c, True, "mask")       # the simulator masks the condition to len(c), Verilog evaluates it self-determined
+                self.cond(c)
                 mixed = ts[1][1] != ts[2][1]
                 self.expr(a, observed or (mixed and not ts[1][1]), "exact" if (mixed and not ts[1][1]) else how)
                 self.expr(b, observed or (mixed and not ts[2][1]), "exact" if (mixed and not ts[2][1]) else how)
@@ -184,22 +178,14 @@ class Monitor:
                 else:
                     if observed:
                         n, s = vw(e), ts[0][1]
-                        if how == "exact":
-                            self._add(e, lambda v, n=n, s=s: fits(v, n, s), "<< overflow in a self-determined position")
-                        else:
-                            self._add(e, lambda v, n=n, m=value_bits_sign(e)[0]: (v & ((1 << m) - 1)) == (v & ((1 << n) - 1)),
-                                      "<< overflow in a masked position")
+                        self._add(e, lambda v, n=n, s=s: fits(v, n, s), "<< overflow in a self-determined position")
                     self.expr(a, observed, how)
                 return
             # + - * & | ^
             mixed = ts[0][1] != ts[1][1]
             n, s = vw(e), (ts[0][1] or ts[1][1])
             if observed and op in ("+", "-", "*"):
-                if how == "exact":
-                    self._add(e, lambda v, n=n, s=s: fits(v, n, s), "%s overflow in a self-determined position" % op)
-                else:
-                    m = value_bits_sign(e)[0]
-                    self._add(e, lambda v, n=n, m=m: (v & ((1 << m) - 1)) == (v & ((1 << n) - 1)), "%s overflow in a masked position" % op)
+                self._add(e, lambda v, n=n, s=s: fits(v, n, s), "%s overflow in a self-determined position" % op)
             for o, t in zip((a, b), ts):
                 promoted = mixed and not t[1]
                 self.expr(o, observed or promoted, "exact" if promoted else how)
@@ -207,8 +193,6 @@ class Monitor:
         if isinstance(e, _Slice):
             # a slice of a Signal selects bits; a slice of an expression is lowered through a proxy of Migen's width (modular)
             self.expr(e.value, False, None)
-            if self._has_signed_bit(e.value):
-                self._add(e, lambda v: False, "bit select of a 1-bit signed signal (printed without select, stays signed)")
             return
         if _Part and isinstance(e, _Part):
             self.expr(e.value, False, None)
@@ -248,12 +232,21 @@ class Monitor:
         return False
 
     def field(self, x):
-        """element of a Cat / Replicate: it occupies len(x) bits in the simulator and its Verilog self-determined width in the text."""
+        """element of a Cat / Replicate: it occupies len(x) bits in the simulator and its Verilog self-determined width in the text.
+        With equal widths both take the low bits of the same modular value."""
         if vw(x) != value_bits_sign(x)[0]:
             self._add(x, lambda v: False, "Cat/Replicate element whose Verilog width differs from Migen's")
-        if isinstance(x, Signal) and x.signed and len(x) == 1:
-            pass
-        self.expr(x, True, "mask")
+        self.expr(x, False, None)
+
+    def cond(self, c):
+        """If / Mux condition: the simulator tests (v & mask(len(c))) != 0, Verilog tests the value computed at the
+        self-determined width of the printed expression, which is v modulo 2^vw(c) (every operator in a context-determined
+        position is modular; the self-determined positions inside are watched on their own)."""
+        m, n = value_bits_sign(c)[0], vw(c)
+        if m != n:
+            self._add(c, lambda v, m=m, n=n: ((v & ((1 << m) - 1)) != 0) == ((v & ((1 << n) - 1)) != 0),
+                      "condition whose truth differs between Migen's width and the Verilog self-determined width")
+        self.expr(c, False, None)
 
     # ---- run time
     def attach(self, evaluator):
